@@ -1,5 +1,5 @@
 -- GENERATED from /repo by tools (never hand-edited); regenerated on every check run.
-import ScenicModel.Model.DepOrder
+import ScenicModel.Model.SampleOrder
 namespace Scenic.Gen
 open Scenic.Det
 
@@ -72,4 +72,23 @@ def detPrivateSites : List (String × Bool) :=
   [ ("utils.findMeshInteriorPoint", true),
     ("visibility.canSee.shuffle", true),
     ("regions.MeshRegion.mesh.no_apply_transform", true) ]
+
+/-- where the dependency graph walked by `Samplable.sampleAll` is built and iterated
+    (site, iteration order = insertion order) -/
+def detSampleSites : List (String × Bool) :=
+  [ ("samplable.init.deps", true),
+    ("lazy.init.dependencies", true),
+    ("samplable.sample.children", true),
+    ("samplable.sampleAll.quantities", true) ]
+
+
+def detSampleSiteOrdered (name : String) : Bool := (detSampleSites.lookup name).getD false
+
+/-- the iteration kinds as the model of graph construction and of the walk takes them -/
+def detSampleKinds : SampleKinds :=
+  { initDeps := detSampleSiteOrdered "samplable.init.deps",
+    stored := detSampleSiteOrdered "lazy.init.dependencies",
+    children := detSampleSiteOrdered "samplable.sample.children",
+    quantities := detSampleSiteOrdered "samplable.sampleAll.quantities",
+    size := 8 }
 end Scenic.Gen
